@@ -63,66 +63,14 @@ theorem c07_chunk_name_injective (a a' : Name) (s s' : List Nat)
 
 example : chunkName "cb/x".toList [3, 40] = "cb/x/00003_00040".toList := by decide
 
-theorem map_fmtInt_ofNat (w : Nat) (s : List Nat) :
-    (s.map Int.ofNat).map (fmtInt w) = s.map (padDec w) := by
-  induction s with
-  | nil => rfl
-  | cons a t ih =>
-    simp only [List.map_cons, ih]
-    congr 1
-
 /-- the executable formatter over Python ints agrees with the padded decimal on non-negative
     starts (negative starts are outside the property: katdal never builds them) -/
-theorem c07_chunk_id_int_agrees (s : List Nat) : chunkIdStrInt (s.map Int.ofNat) = chunkIdStr s := by
-  unfold chunkIdStrInt chunkIdStr chunkIdStrW
-  rw [map_fmtInt_ofNat]
+theorem c07_chunk_id_int_agrees (s : List Nat) : chunkIdStrInt (s.map Int.ofNat) = chunkIdStr s :=
+  chunkIdStrInt_ofNat s
 
 example : chunkIdStrInt [-1, 7] = "-0001_00007".toList := by decide
 
 /-! ### 2. chunk_metadata builds exactly that name -/
-
-theorem sliceShape_natSlices : ∀ (starts shape : List Nat), starts.length = shape.length →
-    sliceShape (natSlices starts shape) = some (shape.map Int.ofNat) := by
-  intro starts
-  induction starts with
-  | nil => intro shape h; cases shape with
-    | nil => rfl
-    | cons _ _ => simp at h
-  | cons a t ih =>
-    intro shape h
-    cases shape with
-    | nil => simp at h
-    | cons n ns =>
-      simp only [List.length_cons] at h
-      have := ih ns (by omega)
-      simp only [natSlices, List.zip_cons_cons, List.map_cons, sliceShape] at this ⊢
-      rw [this]
-      simp only [List.map_cons, Option.some.injEq, List.cons.injEq, and_true, Int.ofNat_eq_natCast]
-      omega
-
-theorem sliceStarts_natSlices : ∀ (starts shape : List Nat), starts.length = shape.length →
-    sliceStarts (natSlices starts shape) = starts.map Int.ofNat := by
-  intro starts
-  induction starts with
-  | nil => intro shape _; cases shape <;> rfl
-  | cons a t ih =>
-    intro shape h
-    cases shape with
-    | nil => simp at h
-    | cons n ns =>
-      simp only [List.length_cons] at h
-      have := ih ns (by omega)
-      simp only [natSlices, List.zip_cons_cons, List.map_cons, sliceStarts] at this ⊢
-      rw [this]
-      simp
-
-theorem steps_natSlices (starts shape : List Nat) :
-    (natSlices starts shape).all (fun s => s.step = none ∨ s.step = some 1) = true := by
-  rw [List.all_eq_true]
-  intro s hs
-  simp only [natSlices, List.mem_map] at hs
-  obtain ⟨p, _, rfl⟩ := hs
-  simp
 
 /-- for the slices katdal builds (unit step, non-negative starts) `chunk_metadata` accepts an
     object-free chunk of the implied shape and returns `chunkName array starts` -/
@@ -130,13 +78,8 @@ theorem c07_metadata_name (array : Name) (starts shape : List Nat) (h : starts.l
     chunkMetadata array (natSlices starts shape) (some shape) false false
       = .ok (chunkName array starts, shape.map Int.ofNat) ∧
     chunkMetadata array (natSlices starts shape) none false false
-      = .ok (chunkName array starts, shape.map Int.ofNat) := by
-  have hname : chunkNameInt array (starts.map Int.ofNat) = chunkName array starts := by
-    unfold chunkNameInt chunkName; rw [c07_chunk_id_int_agrees]
-  have hsteps := steps_natSlices starts shape
-  constructor <;>
-    simp only [chunkMetadata, sliceShape_natSlices starts shape h,
-      sliceStarts_natSlices starts shape h, hsteps, hname] <;> simp
+      = .ok (chunkName array starts, shape.map Int.ofNat) :=
+  chunkMetadata_natSlices array starts shape h
 
 /-- a chunk whose shape differs from the slices, or that holds objects, is refused (BadChunk);
     non-unit steps and open-ended slices are a TypeError -/
